@@ -106,3 +106,10 @@ Theorem C01_every_history_is_a_sequence_of_tree_edits : forall cfg n names seps 
   step cfg s o = (s', Ok) -> edit_of cfg s s' o.
 Proof. intros cfg n names seps ops o s' s E. apply step_is_tree_edit; [apply run_WF, WF_init|exact E]. Qed.
 Print Assumptions C01_every_history_is_a_sequence_of_tree_edits.
+
+(* extend: an accepted `p.extend(cs)` is exactly the appends one after the other; when it raises, exactly the
+   appends before the failing one are in place (the failing assignment itself is rolled back) *)
+Theorem C01_extend_is_appends : forall cfg p cs fts s s',
+  extend_loop cfg s p cs fts = (s', Ok) -> s' = appends p cs s.
+Proof. intros cfg p cs fts s s'. apply extend_ok. Qed.
+Print Assumptions C01_extend_is_appends.
